@@ -230,6 +230,12 @@ func Bound(name string, s *Sort) *Term {
 	freshCtr["bv"]++
 	return mk(&Term{Op: OBound, S: s, Name: fmt.Sprintf("%s?%d", name, freshCtr["bv"])})
 }
+
+// BoundCanon returns the canonical bound variable for (name, nesting depth, sort): evaluating the same quantified
+// clause twice yields the identical term.
+func BoundCanon(name string, depth int, s *Sort) *Term {
+	return mk(&Term{Op: OBound, S: s, Name: fmt.Sprintf("%s?d%d", name, depth)})
+}
 func App(name string, ret *Sort, args ...*Term) *Term {
 	as := make([]*Sort, len(args))
 	for i, a := range args {
